@@ -136,6 +136,23 @@ FRefine(r) ==
     ELSE IF ~(AllNum(r.out.a1) /\ AllNum(r.out.d1) /\ AllNum(r.out.a2) /\ AllNum(r.out.d2)) THEN {"RefineNonFinite"}
     ELSE F("PathsConverge", RLeq(RMul("3", gap(r.out.a2, r.out.d2)), gap(r.out.a1, r.out.d1)))
 
+\* observed from_phi_inbreeding at F1 > F2 (the same F in every population) and from_phi(force_direct):
+\* the inbred spectrum approaches the direct one as F -> 0, within the coupling bound
+\* sum_a n_a (ploidy_a - 1) F / (1 - F) times the mass, and the gap shrinks with F
+FInbLimit(r) ==
+    LET grids == ClampAll(r.in.grids)
+        mass == TrapzAll(r.in.phi, grids)
+        c == RInt(ISum([a \in 1..Len(r.in.ns) |-> r.in.ns[a] * (r.in.ploidys[a] - 1)]))
+        bound(Fv) == RAdd(RMul(RMul(c, RDiv(Fv, RSub("1", Fv))), mass), RMul(TauInb, mass))
+        gap(s, t) == RSeqMaxAbs([k \in 1..Len(t.d) |-> RSub(s.d[k], t.d[k])])
+    IN  IF ~GridsOK(r.in.phi, grids) THEN {"BadRecord"}
+        ELSE IF Raised(r) THEN {"InbLimitRaised"}
+        ELSE IF ~(AllNum(r.out.s1.d) /\ AllNum(r.out.s2.d) /\ AllNum(r.out.t.d)) THEN {"InbLimitNonFinite"}
+        ELSE F("InbreedingLimit", /\ r.out.s1.sh = r.out.t.sh /\ r.out.s2.sh = r.out.t.sh
+                                  /\ RLeq(gap(r.out.s1, r.out.t), bound(r.in.F1))
+                                  /\ RLeq(gap(r.out.s2, r.out.t), bound(r.in.F2))) \cup
+             F("InbreedingLimitShrinks", RLt(r.in.F2, r.in.F1) /\ RLeq(gap(r.out.s2, r.out.t), RAdd(gap(r.out.s1, r.out.t), RMul(TauInb, mass))))
+
 Failed(r) ==
     CASE r.op = "from_phi"            -> FFromPhi(r)
       [] r.op = "from_phi_inbreeding" -> FInbreeding(r)
@@ -144,6 +161,7 @@ Failed(r) ==
       [] r.op = "sample_project"      -> FSampleProject(r)
       [] r.op = "sample_marginalize"  -> FSampleMarg(r)
       [] r.op = "refine"              -> FRefine(r)
+      [] r.op = "inb_limit"           -> FInbLimit(r)
       [] OTHER                        -> {"UnknownOp"}
 
 Init == i = 0
